@@ -284,7 +284,11 @@ class NormalREPARAM(TailCallADEVPrimitive):
         (mu_primal, sigma_primal) = Dual.tree_primal(dual_tree)
         (mu_tangent, sigma_tangent) = Dual.tree_tangent(dual_tree)
         key, sub_key = jax.random.split(key)
-        eps = tfd.Normal(loc=0.0, scale=1.0).sample(seed=sub_key)
+        # One independent draw per component, like `sample`.
+        eps = tfd.Normal(loc=0.0, scale=1.0).sample(
+            jnp.broadcast_shapes(jnp.shape(mu_primal), jnp.shape(sigma_primal)),
+            seed=sub_key,
+        )
 
         def _inner(mu, sigma):
             return mu + sigma * eps
